@@ -10419,3 +10419,99 @@ func ruleJumpLandsInside(c *Ctx) {
 		c.Fail("jump-lands-inside", c.P.Pos(fd.Decl.Pos()), "Context.Jump accepts a target equal to the length of the script: a jump that is actually taken to the position just behind the last instruction becomes an implicit RET and the script halts, where the reference faults (`PUSH7; JMP +2` gives [7]); the same goes for every CALL, ENDTRY and handler dispatch, which all set the instruction pointer here")
 	}
 }
+
+// ruleCacheInitHeight (C01): InitializeCache(isHardforkEnabled, blockHeight, dao) rebuilds a native's cache from the
+// state of height blockHeight - the callers pass the height of the state they hand over (finding 91). Which fields of
+// the state exist, and in which units they are stored, depends on the hardforks active *at that height*; whatever
+// InitializeCache hands on (to the helper that reads the records, to the hardfork predicate) is that height itself,
+// not a neighbour of it. Rebuilt for blockHeight+1 on start, the cache of a node that restarts one block before a
+// hardfork reads records the hardfork block has not written yet (start-up fails) or takes old units for new ones
+// (GetBaseExecFee answers 30 instead of 300000 until the hardfork block arrives) - a running node has neither.
+func ruleCacheInitHeight(c *Ctx) {
+	pk := c.P.Pkg("pkg/core/native")
+	if pk == nil {
+		return
+	}
+	info := pk.TypesInfo
+	n := 0
+	for _, fd := range c.P.AllFuncDecls() {
+		if fd.Pkg != pk || fd.Decl.Body == nil || fd.Decl.Name.Name != "InitializeCache" || fd.Decl.Recv == nil {
+			continue
+		}
+		sig := fd.Obj.Type().(*types.Signature)
+		var hp types.Object
+		for _, fl := range fd.Decl.Type.Params.List {
+			for _, nm := range fl.Names {
+				if b, ok := info.TypeOf(fl.Type).Underlying().(*types.Basic); ok && b.Kind() == types.Uint32 && nm.Name != "_" {
+					hp = info.ObjectOf(nm)
+				}
+			}
+		}
+		_ = sig
+		if hp == nil {
+			continue
+		}
+		f := c.P.NewFuncCFG(fd)
+		k := 0
+		ast.Inspect(fd.Decl.Body, func(x ast.Node) bool {
+			call, ok := x.(*ast.CallExpr)
+			if !ok {
+				return true
+			}
+			// only calls that read the state: the hardfork predicate itself, or a callee that is also given the DAO or
+			// the predicate (questions about the *next* block put to the configuration - which validators, is it an
+			// epoch boundary - legitimately use blockHeight+1)
+			readsState := false
+			if id, ok := ast.Unparen(call.Fun).(*ast.Ident); ok {
+				if _, isSig := info.TypeOf(id).Underlying().(*types.Signature); isSig {
+					if v, ok := info.ObjectOf(id).(*types.Var); ok && f.params[v] {
+						readsState = true
+					}
+				}
+			}
+			for _, a := range call.Args {
+				t := info.TypeOf(a)
+				if t == nil {
+					continue
+				}
+				if namedTypeIs(t, "pkg/core/dao", "Simple") || namedTypeIs(t, "pkg/core/interop", "IsHardforkEnabled") {
+					readsState = true
+				}
+			}
+			if !readsState {
+				return true
+			}
+			for _, a := range call.Args {
+				mentions := false
+				ast.Inspect(a, func(y ast.Node) bool {
+					if id, ok := y.(*ast.Ident); ok && info.ObjectOf(id) == hp {
+						mentions = true
+					}
+					return true
+				})
+				if !mentions {
+					continue
+				}
+				n++
+				k++
+				key := fmt.Sprintf("%s.height#%d", shortSym(FuncKey(fd.Obj)), k)
+				if fd.Decl.Recv != nil {
+					if rt := fd.Obj.Type().(*types.Signature).Recv().Type(); rt != nil {
+						key = types.TypeString(rt, func(*types.Package) string { return "" }) + "." + key
+					}
+				}
+				base, off, ok := linearForm(f, a, 0)
+				if id, isId := ast.Unparen(a).(*ast.Ident); isId && info.ObjectOf(id) == hp {
+					base, off, ok = hp.Name(), 0, true
+				}
+				if ok && off == 0 && (base == hp.Name() || base == "") {
+					c.OK(key, c.P.Pos(a.Pos()), "the height of the state is handed on unchanged")
+				} else {
+					c.Fail(key, c.P.Pos(a.Pos()), fmt.Sprintf("%s hands `%s` on where it was given %s, the height of the state it rebuilds the cache from: hardfork-dependent fields are then read (or interpreted) for another height than the records were written at - a node restarted one block before a hardfork fails to start or answers with values in the wrong units, which a node that kept running does not", FuncKey(fd.Obj), types.ExprString(a), hp.Name()))
+				}
+			}
+			return true
+		})
+	}
+	c.Floor("uses of the state height in InitializeCache", n, 2)
+}
